@@ -211,6 +211,10 @@ Proof.
   - fin E. apply KH; reflexivity.
   - destruct (rg c r1) as [x|]; [|fin E; apply ms_refl'].
     destruct (rg c r2) as [y|]; fin E; apply ms_refl'.
+  - (* MAllocWith *)
+    match type of E with context [init_obj ?kk ?ss ?ww] => destruct (init_obj kk ss ww) as [o|] end; [|fin E; apply ms_refl'].
+    pose proof (met_link c o) as K.
+    destruct (link c o) as [c1 i]. cbn [fst] in K. fin E. unfold MS. cbn [met set_rg set_regs]. rewrite K. constructor. constructor.
 Qed.
 
 (** ... and the first-marking class earns at most one marking credit *)
